@@ -18,7 +18,8 @@ PROP = dict(
                "body-length edits of valid encodings) are given to Decode and to the stream Decoder under a panic trap and a 30 s/256 KiB "
                "watchdog (re-tried 3x in isolation): exactly one of (assertion, error) must come back, whatever decodes must re-encode "
                "to something decoding to the same value, the stream decoder's result must not depend on read chunking or buffer size, "
-               "valid encodings cut before their signature or with a body-length off by one must be rejected, untouched ones accepted. "
+               "valid encodings cut before their signature, with a body-length off by one or with the space after a header's colon dropped "
+               "must be rejected, untouched ones accepted. "
                "Header, signature, body and per-type body sizes are placed at limit-4..limit+4 (and further away) of stressed decoders, "
                "NewDecoderWithTypeMaxBodySize and the real 128 KiB / 2 MiB limits: under-limit input must be accepted, over-limit "
                "rejected with an error. Sampled, not complete.",
@@ -31,7 +32,7 @@ PROP = dict(
     rule="roundtrip: rapid-generated streams of 1-5 valid assertions x encoder path x decoder/reader variant; non-trivial = some header is "
          "nested (list/map) or multi-line. headers: generated header maps (depth <= 4/6) and a 1-3 edit mutant of their rendering; "
          "non-trivial likewise. bytes: arbitrary bytes / token soup / valid encodings (1-2) untouched, truncated, with body-length off "
-         "by one, or with 1-3 byte/line mutations, x reader variant; non-trivial = the input starts with a complete well-formed header "
+         "by one, with a header's colon-space dropped, or with 1-3 byte/line mutations, x reader variant; non-trivial = the input starts with a complete well-formed header "
          "line (the parser gets past the first header line). limits: component x decoder kind x (limit + delta); non-trivial = within "
          "16 bytes of the limit with a defined expectation. corpus: 48 committed inputs x 4 decoder/reader variants. Distinct by hash "
          "of the case.",
